@@ -37,7 +37,7 @@ CHECKS = {
    note="Both documents run on this runtime. Message texts are not compared."),
  "C06": dict(
    category="exploration", design="DESIGN.md §5 C06",
-   technique="fuzzing by source mutation (character, line, bracket, splice, identifier-rename mutators over corpus, generated and idiom sources) and token soup, proptest-driven and tape-shrunk, in a worker process under a watchdog; oracles: no panic, error line within the input, output loads, an independent static resolver accepts every emitted reference, compiling twice is byte-identical",
+   technique="fuzzing by source mutation (character, line, bracket, splice, identifier-rename, escape and number-literal mutators over corpus, generated and idiom sources) and token soup, proptest-driven and tape-shrunk, in a worker process under a watchdog; oracles: no panic, error line within the input, output loads, an independent static resolver accepts every emitted reference, compiling twice is byte-identical",
    text="Every input is compiled with a file handler that knows no files. The compiler must return; an error line must lie within 1..=#lines; a compiled story must parse, load with Story::new and pass the harness's own resolver: every ->, ->t->, f(), *, CNT?, ^-> path addresses existing content, every variable token names a declared global, list item or temporary of its flow, every x() names an EXTERNAL. The resolver is first validated against all reference-compiled corpus documents. Exploration only: inputs are sampled.",
    note="A worker exceeding its budget is inconclusive (exit 2). Hangs are therefore bounded, not excluded."),
  "C19": dict(
@@ -83,7 +83,7 @@ CHECKS = {
  "C02": dict(
    category="exploration", design="DESIGN.md §5 C02",
    technique="property-based testing: generated programs and corpus stories x generated histories x every save point; lockstep differential original vs fresh-story+load_state; save-load-save canonical round trip",
-   text="At every position between two host calls of a generated history the story is saved, loaded into a freshly constructed story, and both are driven through the remaining history and a tail in lockstep (view right after the load, every later observation, final view, final canonical save; re-save equals the save). Generated-input search over programs with threads, tunnels, functions, lists, RANDOM, several flows, fallback choices; exploration only.",
+   text="At every position between two host calls of a generated history the story is saved, loaded into a freshly constructed story, and both are driven through the remaining history and a tail in lockstep (view right after the load, every later observation, final view, final canonical save; re-save equals the save). Generated-input search over programs with threads, tunnels, functions, lists, RANDOM, several flows, fallback choices, and a float-extremes program family (infinities and NaN in globals); exploration only. One known finding (a NaN global is restored as 0.0) is reported as KNOWN-FINDING.",
    note="Trusted: the harness's transcript/view extraction through the public API and its canonical-JSON comparison (choice `index` caches and diagnostic texts excluded, observer notifications compared by C11 instead). Fuel-bounded."),
  "C09": dict(
    category="exploration", design="DESIGN.md §5 C09",
